@@ -142,7 +142,8 @@ def _real(ver, s):
             return "ok\t%s %s %s\t%s\t%s\t%s\t%s" % (
                 _frac(o.base_score), _frac(o.temporal_score), _frac(o.environmental_score), call(o.clean_vector),
                 call(lambda: "|".join(o.severities())), call(o.temporal_vector), call(o.environmental_vector)) + "\t" + ";".join(
-                js(a, b) for a in (False, True) for b in (False, True))
+                js(a, b) for a in (False, True) for b in (False, True)) + "\t" + call(lambda: " ".join(
+                    "None" if x is None else _frac(__import__("decimal").Decimal(repr(float(x)))) for x in o.scores()))
         if ver == "3":
             return "ok\t%s %s %s\t%s\t%s" % (
                 _frac(o.base_score), _frac(o.temporal_score), _frac(o.environmental_score),
@@ -150,7 +151,8 @@ def _real(ver, s):
                 ",".join("%s:%s" % kv for kv in sorted(o.original_metrics.items()))) + "\t%s\t%s\t%s\t%s\t%s" % (
                 call(o.clean_vector), call(o.clean_vector, False), call(lambda: "|".join(o.severities())),
                 call(o.temporal_vector), call(o.environmental_vector)) + "\t" + ";".join(
-                js(a, b) for a in (False, True) for b in (False, True))
+                js(a, b) for a in (False, True) for b in (False, True)) + "\t" + call(lambda: " ".join(
+                    "None" if x is None else _frac(__import__("decimal").Decimal(repr(float(x)))) for x in o.scores()))
         ms = []
         for k in V4_KEYS:
             try:
